@@ -850,13 +850,24 @@ impl<'a> Gen<'a> {
             Kind::RaceLaps => Val::U(if r.chance(1, 3) { *r.pick(&[0u64, 1, 99, 100, 190, 191, 238]) } else { r.below(239) }),
             Kind::GameVer => {
                 // numbers that print canonically (the typed value stores the number as a float)
-                let major = *r.pick(&["0.7", "0.6", "0.04", "0.5", "0.1", "0.3"]);
+                // (1..8 characters: an 8-character version fills the field and has no terminating NUL)
+                let major = *r.pick(&["0.7", "0.6", "0.04", "0.5", "0.1", "0.3", "10.5", "0.125", "1", "0.25"]);
                 let letter = (b'A' + r.below(26) as u8) as char;
-                let rev = match r.below(3) {
+                let room = 8 - major.len() - 1;
+                let rev = match r.below(4) {
                     0 => String::new(),
+                    1 => {
+                        // fill the field exactly
+                        let d = room.min(3);
+                        if d == 0 { String::new() } else { format!("{}", 10u64.pow(d as u32 - 1) + r.below(9 * 10u64.pow(d as u32 - 1))) }
+                    },
                     _ => format!("{}", 1 + r.below(98)),
                 };
-                Val::T(format!("{major}{letter}{rev}"))
+                let mut t = format!("{major}{letter}{rev}");
+                if t.len() > 8 {
+                    t = format!("{major}{letter}");
+                }
+                Val::T(t)
             },
             Kind::Ip => Val::B(r.bytes(4)),
             Kind::Nib(hi, lo) => {
@@ -884,10 +895,26 @@ impl<'a> Gen<'a> {
                     let mut seen = std::collections::HashSet::new();
                     let mut items = vec![];
                     while items.len() < n {
-                        if let Val::U(id) = self.vehicle(r) {
-                            if seen.insert(id) {
-                                items.push(Val::U(id));
+                        // in this list every entry is a mod id, also one whose bytes happen to spell a car name
+                        // ("XFG\0", any three alphanumerics + NUL: ~1.4 % of real 3-byte ids)
+                        let shaped = r.chance(1, 5).then(|| {
+                            let mut b = [0u8; 4];
+                            if r.chance(1, 2) {
+                                b[..3].copy_from_slice(r.pick(&BUILTIN_CARS).as_bytes());
+                            } else {
+                                for x in b[..3].iter_mut() {
+                                    *x = *r.pick(b"0123456789ABCXYZabcxyz");
+                                }
                             }
+                            u32::from_le_bytes(b) as u64
+                        });
+                        let id = match (shaped, self.vehicle(r)) {
+                            (Some(id), _) => id,
+                            (None, Val::U(id)) => id,
+                            _ => continue,
+                        };
+                        if seen.insert(id) {
+                            items.push(Val::U(id));
                         }
                     }
                     Val::P(items)
